@@ -81,7 +81,7 @@ class Ctx:
         self.count("violations_total")
         if n == 0 or (n < 3 and len(self.violations) < self.MAX_VIOL):
             self.violations.append({"key": key, "what": what, "witness": witness,
-                                    "seed": self.seed, "shard": self.shard, "tier": self.tier})
+                                    "seed": self.seed, "shard": self.shard, "nshards": self.nshards, "tier": self.tier, "budget_s": self.budget_s})
         elif n < 200:
             # still account for it so that KNOWN-FINDING counts are honest
             self.violations.append({"key": key, "what": what, "witness": None, "seed": self.seed,
@@ -167,13 +167,21 @@ def main():
         path, pid = sys.argv[2], sys.argv[3]
         mod = importlib.import_module(f"islamon.checks.{pid.lower()}")
         rec = json.load(open(path))
+        v = rec.get("witness", {})
+        w = v["witness"] if isinstance(v, dict) and "witness" in v else v
         ctx = Ctx(pid, "quick", 0, 0, 1, "/dev/null", 600)
-        w = rec["witness"]["witness"] if "witness" in rec.get("witness", {}) else rec.get("witness")
-        mod.replay(ctx, w)
-        for v in ctx.violations:
-            print("VIOLATED", v["key"], v["what"])
-        print("replay verdict:", "violated" if ctx.violations else ("held" if ctx.judged else "inconclusive"),
-              ctx.reasons)
+        if w is not None:
+            mod.replay(ctx, w)
+        if not ctx.violations and not ctx.judged and isinstance(v, dict) and "shard" in v and "nshards" in v:
+            # generic replay: re-run the shard that produced the witness (same seed, shard, tier, budget => same PRNG stream)
+            print(f"re-running shard {v['shard']}/{v['nshards']} seed {v['seed']} tier {v['tier']} ...")
+            ctx = Ctx(pid, v["tier"], int(v["seed"]), int(v["shard"]), int(v["nshards"]), "/dev/null", float(v.get("budget_s", 60)))
+            random.seed(f"global-{v['seed']}-{v['shard']}-0")
+            mod.run(ctx)
+            ctx.violations = [x for x in ctx.violations if x.get("key") == rec.get("key") or (rec.get("key") == "unclassified" and x.get("key") is None)]
+        for x in ctx.violations[:5]:
+            print("VIOLATED", x["key"], x["what"])
+        print("replay verdict:", "violated" if ctx.violations else ("held" if ctx.judged else "inconclusive"), ctx.reasons)
         sys.exit(1 if ctx.violations else 0)
     if sys.argv[1] == "--child":
         pid, tier, seed, shard, nshards, out, budget, attempt = sys.argv[2:10]
